@@ -116,4 +116,11 @@ example (cfg : Cfg) (sfh : Bool) : inst cfg sfh sampleTy sampleVal = true := by
   unfold hashGetW; simp
   unfold instStruct; simp
 
+/-- Iterator[T] (inside the model since the extension round): no value of the value language is an iterator — `inst` and `Den` agree on "never" -/
+theorem C02_iterator_empty (cfg : Cfg) (sfh : Bool) (t : Ty) (v : Val) :
+    inst cfg sfh (.iterator t) v = false ∧ ¬ Den cfg sfh (.iterator t) v := by
+  constructor
+  · unfold inst; rfl
+  · unfold Den; exact id
+
 end Pcore.Lat
